@@ -44,6 +44,9 @@ CLAIMS = {
  'C20': ('pzv-bin', 'differential testing across thread counts and concurrent workloads (ciphertext byte equality), schedules perturbed by generated thread counts and oversubscription',
          'Every *_multi_thread word op and partial preparation is compared byte for byte with its single-threaded run for generated thread counts (not dividing / exceeding the work items) and (start, count) partitions; several harness threads sharing one Module and prepared keys must reproduce their solo results.',
          'Interleavings are sampled, not enumerated; no yield-injection hook.', 'DESIGN.md section 6 C20'),
+ 'C16': ('pzv-ckks', 'model-based property testing of generated straight-line programs: shadow evaluation on complex f64 with a tracked worst-case error bound + an executable model of the log_delta / log_budget algebra and of the error paths',
+         'Random programs (two fresh encryptions with independent limb counts / log_delta / budgets, then 1..13 steps over a 4-register file) of encrypt, add / sub / mul / square (out of place into destinations of 1..10 limbs, and in place), neg, add / sub / mul with encoded plaintext vectors and complex constants of independent precision, mul_pow2, div_pow2, rotate (keys present and absent), conjugate, rescale, align, compact_limbs, reallocate_limbs on four backends and two parameter sets per family. After every step: the Result equals the model (Ok or the expected CKKSCompositionError kind, never a panic, metadata untouched when an in-place step fails), (log_delta, log_budget) equal the model, log_delta + log_budget <= stored precision, and every live register decrypts and decodes to the shadow within the tracked error bound.',
+         'Trusted: the metadata model (derived from the code and the shipped tests, not from independent documentation), the error-propagation model (worst-case constants). f128 plaintext element type not exercised (shadow is f64, log_delta <= 53); composite operations (mul_add, dot products, *_many) and the unsafe un-normalised variants are not in the program grammar. N = 32 / 64.', 'DESIGN.md section 6 C16'),
  'C17': ('pzv-hal', 'AddressSanitizer-instrumented property-based execution of the operation registry (exact-size heap blocks) + guard-margin canaries',
          'Every registry operation on four backends (N from 1, odd limb counts, multi-column, size < capacity, roomy and exact-size scratch) plus histories of resize / reallocate / corrupted deserialisation followed by use run in an AddressSanitizer build in which each operand and scratch window is its own exact-size heap block; any sanitizer report, guard-region damage or panic is a violation (death callback writes the replay).',
          'ASan instruments Rust code and intrinsics of harness and poulpy crates, not std and not global assembly (covered by patterned guard margins); uninitialised reads are only approximated by C11/C12; scheme-level layers are exercised through their own properties in the checked profile.', 'DESIGN.md section 6 C17'),
@@ -95,6 +98,7 @@ m = {
            'baseline_off_cmd': 'cd /repo && cargo test --workspace --no-fail-fast --offline', 'source_commits': hooks, 'add_only': True},
  'engines': [
    {'name': 'pzv-scheme', 'path': 'harness/scheme', 'serves_properties': ['C01','C02','C03','C04','C05','C06','C19'], 'kind_free_text': 'proptest-driven binary on poulpy-core with exact phase recomputation from the clear secret'},
+   {'name': 'pzv-ckks', 'path': 'harness/ckks', 'serves_properties': ['C16'], 'kind_free_text': 'proptest-driven binary on poulpy-ckks: program interpreter with a complex-number shadow and a metadata model'},
    {'name': 'pzv-serde', 'path': 'harness/serde', 'serves_properties': ['C18'], 'kind_free_text': 'fault-injecting property tests over all serialisable layouts'},
    {'name': 'pzv-bin', 'path': 'harness/binfhe', 'serves_properties': ['C13','C14','C15','C20'], 'kind_free_text': 'clear BDD evaluator + homomorphic word operations on the shipped parameter set'},
    {'name': 'pzv-hal', 'path': 'harness/hal', 'serves_properties': ['C07','C08','C09','C10','C11','C12','C17'], 'kind_free_text': 'proptest-driven binary over an operation registry of the HAL, four backends, guarded buffers, exact integer/rational oracles'},
